@@ -305,6 +305,17 @@ def build_exclusive(w):
     w.ufunc('KTID', ['str'], 'Obj'); w.ext_funcs['s_obj.get_known_type_id'] = dict(params={'n': 'str'}, returns='Obj', returns_expr='KTID(n)')
     w.contract(IRTU, 'is_json', params={'typeref': 'JRef'}, returns='bool', ensures=['result == (typeref.real_base_type.id == KTID("std::json"))'])
     w.contract(IRTU, 'is_bytes', params={'typeref': 'JRef'}, returns='bool', ensures=['result == (typeref.real_base_type.id == KTID("std::bytes"))'])
+    # cardinality.__infer_typecast: a cast is element-wise, except that a json `null` casts to the empty set -- so for an operand of n0 elements the result has n elements with
+    # n == n0, or 0 <= n <= n0 when the source type is json (by its base type) and the cast is not marked `required`; the reported cardinality contains every such n
+    w.enum('CMod', 'edb/edgeql/ast.py', 'CardinalityModifier')
+    w.refclass('TCast', {'expr': 'Obj', 'from_type': 'JRef', 'cardinality_mod': 'Opt[CMod]'})
+    ISJ = '(ir.from_type.real_base_type.id == KTID("std::json"))'
+    REQD = '(not is_none(ir.cardinality_mod) and some(ir.cardinality_mod) == CMod.Required)'
+    w.contract(CARD, '__infer_typecast', params={'ir': 'TCast', 'scope_tree': 'Obj', 'ctx': 'Obj'}, ghost={'n0': 'int', 'n': 'int'}, returns='Card',
+        requires=['n0 >= 0', 'in_gamma(n0, CARDOF(ir.expr))', 'implies(%s and not %s, 0 <= n and n <= n0)' % (ISJ, REQD), 'implies(not (%s and not %s), n == n0)' % (ISJ, REQD)],
+        ensures=['known(result)', 'in_gamma(n, result)'], raises={'QueryError': {}},
+        hints={'ext_funcs': {'infer_cardinality': dict(params={'ir': 'Obj'}, optional=('scope_tree', 'ctx', 'is_mutation'), returns='Card', returns_expr='CARDOF(ir)', ensures=['known(result)'],
+                                                       raises={'QueryError': {}})}})
     return w
 
 def build():
